@@ -26,10 +26,12 @@ Open Scope N_scope.
 
 (* ------------------------------------------------------------------ cfg *)
 Record cfg := mkCfg {
-  fx_delalias : bool   (* proposed C15-13: _GD_Delete re-resolves all aliases, as _GD_PerformRename does *)
+  fx_delalias : bool;  (* proposed C15-13: _GD_Delete re-resolves all aliases, as _GD_PerformRename does *)
+  fx_dotparent : bool  (* proposed C15-14: gd_madd*() builds the subfield name from the parent entry's name,
+                          not from the caller's string (which may carry the leading '.' that lookup drops) *)
 }.
-Definition pinned := mkCfg false.   (* the code as it stands in /repo *)
-Definition fixed  := mkCfg true.    (* with the proposed repair *)
+Definition pinned := mkCfg false false.   (* the code as it stands in /repo *)
+Definition fixed  := mkCfg true true.     (* with the proposed repairs *)
 
 (* ---------------------------------------------------------------- types *)
 Definition T_RAW := 0.  Definition T_LINCOM := 1.  Definition T_LINTERP := 2.
@@ -399,6 +401,21 @@ Definition two_in (ty : N) : bool :=
 Definition one_in (ty : N) : bool :=
   (ty =? T_LINTERP) || (ty =? T_BIT) || (ty =? T_PHASE) || (ty =? T_POLYNOM) || (ty =? T_SBIT) || (ty =? T_RECIP).
 
+(* _GD_FindField drops an initial '.' of the code it is asked to find (when more follows) *)
+Definition undot (k : name) : name :=
+  match k with
+  | 46 :: (_ :: _) as r => r
+  | _ => k
+  end.
+
+(* memcpy(name, parent, P->e->len): the parent part of a new subfield name is cut from the caller's
+   string.  With a leading '.' (dropped by the lookup) the new name is wrong AND is inserted at the index
+   computed for the name without the dot, which breaks the order of D->entry: that case is left
+   unmodelled ([dotted_parent]) unless the repair is in. *)
+Definition parent_part (c : cfg) (P : entry) (praw : name) : name := e_name P.
+Definition dotted_parent (c : cfg) (praw : name) : bool :=
+  negb (fx_dotparent c) && negb (length praw =? length (undot praw))%nat.
+
 (* the tail of _GD_Add once the parent and the full name are known *)
 Definition add_go (s : state) (ty : N) (hid : bool) (ins : list name) (scs : list (option name)) (v : Z)
            (P : option entry) (full sub : name) (fr : N) : state * res :=
@@ -424,7 +441,7 @@ Definition alias_go (s : state) (tgt : name) (P : option entry) (full sub : name
            with_aliases (do_insert s P e) false E_OK
        end.
 
-Definition op_add (s : state) (viaspec : bool) (parent : option name) (nm : name)
+Definition op_add (c : cfg) (s : state) (viaspec : bool) (parent : option name) (praw : name) (nm : name)
            (ty frag : N) (hid : bool) (ins : list name) (scs : list (option name)) (v : Z) : state * res :=
   if viaspec then
     (* _GD_AddSpec -> _GD_ParseFieldSpec(insert = 1); CONST only *)
@@ -461,7 +478,8 @@ Definition op_add (s : state) (viaspec : bool) (parent : option name) (nm : name
         | None => (s, RInt E_BAD_CODE)
         | Some P =>
             if e_meta P || is_alias P then (s, RInt E_BAD_CODE)
-            else go (Some P) (e_name P ++ SLASH :: nm) nm (e_frag P)
+            else if dotted_parent c praw then (s, RUnmodelled)
+            else go (Some P) (parent_part c P praw ++ SLASH :: nm) nm (e_frag P)
         end
     | None =>
         if NFRAG <=? frag then (s, RInt E_BAD_INDEX) else
@@ -490,7 +508,7 @@ Definition op_add (s : state) (viaspec : bool) (parent : option name) (nm : name
     end.
 
 (* _GD_AddAlias *)
-Definition op_alias (s : state) (parent : option name) (nm tgt : name) (frag : N) : state * res :=
+Definition op_alias (c : cfg) (s : state) (parent : option name) (praw : name) (nm tgt : name) (frag : N) : state * res :=
   if NFRAG <=? frag then (s, RInt E_BAD_INDEX) else
   let go := alias_go s tgt in
   match parent with
@@ -499,7 +517,8 @@ Definition op_alias (s : state) (parent : option name) (nm tgt : name) (frag : N
       | None => (s, RInt E_BAD_CODE)
       | Some P =>
           if e_meta P || is_alias P then (s, RInt E_BAD_CODE)
-          else go (Some P) (e_name P ++ SLASH :: nm) nm (e_frag P)
+          else if dotted_parent c praw then (s, RUnmodelled)
+          else go (Some P) (parent_part c P praw ++ SLASH :: nm) nm (e_frag P)
       end
   | None =>
       match nm with
@@ -875,19 +894,26 @@ Definition op_list (s : state) (parent : option name) (sel flags : N) : state * 
 Definition affixed (s : state) : bool :=
   match s_aff s with ([], []) => false | _ => true end.
 
+Definition praw_of (parent : option name) : name := match parent with Some p => p | None => [] end.
+Definition undot_opt (parent : option name) : option name := match parent with Some p => Some (undot p) | None => None end.
+
 Definition step (c : cfg) (s : state) (o : op) : state * res :=
   match o with
-  | OList parent sel flags => op_list s parent sel flags
+  | OList parent sel flags => op_list s (undot_opt parent) sel flags
   | OAffix frag px sx => op_affix s frag px sx
   | _ =>
       if affixed s then (s, RUnmodelled) else
       match o with
-      | OAdd viaspec parent nm ty frag hid ins scs v => op_add s viaspec parent nm ty frag hid ins scs v
-      | OAlias parent nm tgt frag => op_alias s parent nm tgt frag
-      | ODel nm flags => op_del c s nm flags
-      | ORen nm new flags => op_ren s nm new flags
-      | OMove nm frag => op_move s nm frag
-      | OHide nm h => op_hide s nm h
+      | OAdd viaspec parent nm ty frag hid ins scs v =>
+          if has_dot nm then (s, RUnmodelled)
+          else op_add c s viaspec (undot_opt parent) (praw_of parent) nm ty frag hid ins scs v
+      | OAlias parent nm tgt frag =>
+          if has_dot nm then (s, RUnmodelled)
+          else op_alias c s (undot_opt parent) (praw_of parent) nm tgt frag
+      | ODel nm flags => op_del c s (undot nm) flags
+      | ORen nm new flags => if has_dot new then (s, RUnmodelled) else op_ren s (undot nm) new flags
+      | OMove nm frag => op_move s (undot nm) frag
+      | OHide nm h => op_hide s (undot nm) h
       | _ => (s, RUnmodelled)
       end
   end.
